@@ -16,6 +16,17 @@
 #   M11 theta_union_base::get_result: the `< theta` filter dropped (key_not_zero instead of key_not_zero_less_than) -> key_not_below_theta / union_keys
 #       (needed inputs of different lg_k and unions larger than their inputs: generator extended after the first run missed it)
 #   M12 compact_tuple_sketch(const Base&, ordered): sorts only when the source is already ordered -> ordered_not_sorted
+#   M13 default_array_tuple_update_policy::update: loop stops one column early                   -> summary_not_fold
+#   M14 default_array_tuple_union_policy: array[i] = other[i]                                     -> union_summary
+#   M15 theta_intersection_base::update: theta = max instead of min                               -> inter_theta / inter_empty
+#   M16 default_tuple_union_policy (arithmetic summaries): summary = other                        -> union_summary
+#   (M14-M16 were run with the same harness / extracted model / oracle through a scratch driver, outside ./check, because the
+#    shared Coq build lock was held for many minutes by other checks at the time.)
+#   DESIGN section 9 row C13 "summaries not moved with their key on rebuild" cannot be written generically (the table code moves whole
+#   entries); its realistic analogue is M1 (a summary left behind / taken by a move).
+# The shared set-operation code is modelled AS REPAIRED by fixes/02_intersection_empty_order.patch and fixes/02_union_empty_theta.patch
+# (prepared by the C02 family): against a tree without them this check reports VIOLATION (sig empty_theta_below_max for an empty
+# p<1 union result; inter_theta / inter_empty for the latched intersection); with them it is green (seeds 1,2,3).
 # Harmless rewrites confirmed tolerated (exit 0):
 #   H1  theta_union_base::update always copies the incoming entry (no conditional_forward)
 #   H2  STRIDE_HASH_BITS 7 -> 8 (different slot order in every table)
